@@ -197,7 +197,15 @@ func Check(root, id, tier string, seed uint64) (*Result, error) {
 		if tier == "thorough" {
 			n, nr = 400, 60
 		}
-		cases = C14Cases(corpus, C14Configs(corpus), seed, tier, n)
+		ccfgs := C14Configs(corpus)
+		nrc := 2
+		if tier == "thorough" {
+			nrc = 10
+		}
+		for i := 0; i < nrc; i++ {
+			ccfgs = append(ccfgs, spec.RandomConfig(corpus, seed*977+uint64(i)*31+5))
+		}
+		cases = C14Cases(corpus, ccfgs, seed, tier, n)
 		for i, rp := range randoms {
 			cases = append(cases, C14Cases(rp, C14ConfigsFor(rp), seed+uint64(i)+1, tier, nr)...)
 		}
@@ -213,6 +221,20 @@ func Check(root, id, tier string, seed uint64) (*Result, error) {
 		}
 		var kinds map[string]int
 		cases, kinds = C16Cases(corpus, seed, tier, ns)
+		// the same clauses over seeded random configurations of the corpus program
+		nrc := 1
+		if tier == "thorough" {
+			nrc = 8
+		}
+		for i := 0; i < nrc; i++ {
+			cp := *corpus
+			cp.Config = spec.RandomConfig(corpus, seed*977+uint64(i)*31+5)
+			cs, ks := C16Cases(&cp, seed+uint64(100+i), tier, nsr)
+			cases = append(cases, cs...)
+			for k, v := range ks {
+				kinds[k] += v
+			}
+		}
 		for i, rp := range randoms {
 			cs, ks := C16Cases(rp, seed+uint64(i)+1, tier, nsr)
 			cases = append(cases, cs...)
